@@ -52,7 +52,7 @@ class MemoryDB(object):
     fail = idx in self.faults
     has = metric in self.files
     ev = dict(k='db', op=op, m=run.mid(metric), ok=0 if fail else 1, res=int(has), has=int(has),
-              pts=[[int(a), int(b)] for a, b in pts], idx=idx, now=int(run.now * 1024))
+              pts=[[int(a), cachesys.dec(b)] for a, b in pts], idx=idx, now=int(run.now * 1024))
     run.ev.append(ev)
     run.pending_cnt = True
     if fail:
@@ -139,12 +139,12 @@ class WriterRun(object):
 
     def on_acquire(owner):
       if owner == 'W' and self.w_pop is not None:
-        self.w_snapshot = sorted((int(a), int(b)) for a, b in cache.get(self.w_pop, {}).items())
+        self.w_snapshot = sorted((int(a), cachesys.dec(b)) for a, b in cache.get(self.w_pop, {}).items())
 
     def on_release(owner):
       if owner == 'R' and self.r_pending is not None:
         m, ts, vid = self.r_pending
-        if cache.get(m, {}).get(ts) == float(vid):
+        if cache.get(m, {}).get(ts) == cachesys.enc(vid):
           self.ev.append(dict(k='stored', m=self.mid(m), ts=ts, id=vid))
         self.r_pending = None
       elif owner == 'W' and self.w_pop is not None and self.w_snapshot is not None:
@@ -172,7 +172,7 @@ class WriterRun(object):
         self.ev.append(dict(k='drained', m=0, batch=[]))
       elif not self.w_logged:
         # the pop did not go through the lock: record what the writer received
-        self.ev.append(dict(k='drained', m=self.mid(r[0]), batch=[[int(a), int(b)] for a, b in r[1]]))
+        self.ev.append(dict(k='drained', m=self.mid(r[0]), batch=[[int(a), cachesys.dec(b)] for a, b in r[1]]))
       return r
     cache.drain_metric = drain_metric
     self.sched.on_point = self.on_point
@@ -199,7 +199,7 @@ class WriterRun(object):
         ts = self.ts0 + ts            # timestamps close to the (virtual) present
         self.r_pending = (m, ts, vid)
         try:
-          self.cache.store(m, (ts, float(vid)))
+          self.cache.store(m, (ts, cachesys.enc(vid)))
         except ValueError:
           pass      # bucketmax store failure inside the choose/pop window: listed finding F9 (C17)
         self.r_pending = None
@@ -230,7 +230,7 @@ class WriterRun(object):
         if t.exc is not None:
           raise Machinery('workload thread %s died: %r' % (t.name, t.exc))
       self.snap_cnt()
-      cached = [[self.mid(m), int(ts), int(v)] for m, d in self.cache.items() for ts, v in d.items()]
+      cached = [[self.mid(m), int(ts), cachesys.dec(v)] for m, d in self.cache.items() for ts, v in d.items()]
       self.ev.append(dict(k='end', cached=cached))
     finally:
       self.teardown()
